@@ -617,6 +617,11 @@ Definition w_internals : node :=
      [(LSubroutines, Node NProc (at_ 3 Public true)
         [leaf LVariables 4 Public true; (LEnums, Node NEnum (at_ 5 Public true) [leaf LVariables 6 Public true])])])].
 
+(* private module: the implementation of a separate module procedure written in the module itself *)
+Definition w_modproc : node :=
+  file_of [] [(LModules, Node NModule (at_ 2 Private true)
+     [leaf LInterfaces 3 Private true; (LModProcedures, Node NProc (at_ 4 Private true) [leaf LVariables 5 Private true])])].
+
 (* the configuration and tree satisfy the hypotheses of the theorems, and FORD's lists are the Spec's *)
 Definition agrees (c : cfg) (t : node) : Prop :=
   cfg_ok c = true /\ is_file t = true /\ well_kinded t = true /\ regular t = true /\
@@ -641,6 +646,11 @@ Example fixed_file_display :
 Proof. repeat split. Qed.
 Example fixed_doc_place :
   agrees (cfg_of [WPublic] true true) w_docplace /\ kept_ids (cfg_of [WPublic] true true) w_docplace = [1; 2; 3].
+Proof. repeat split. Qed.
+
+Example fixed_module_modprocedure :
+  agrees (cfg_of [WPublic] true false) w_modproc /\ kept_ids (cfg_of [WPublic] true false) w_modproc = [1; 2] /\
+  pages (cfg_of [WPublic] true false) w_modproc = [2].
 Proof. repeat split. Qed.
 
 (* a constructor interface whose permission is not its type's accessibility: the tree is not regular, and
